@@ -256,7 +256,7 @@ func refChain(kinds []kind, a, b []sym) (int, bool) {
 
 type orderStats struct {
 	pairs, undetermined, strict, ties int64
-	tieReordered                      int64 // equal-under-comparator groups with distinct texts emitted against first-appearance order (informational)
+	tieReordered                      int64 // equal-under-comparator groups with distinct texts emitted against first-appearance order (a violation: usage promises a stable sort)
 }
 
 func sameTuple(a, b []sym) bool {
@@ -342,8 +342,15 @@ func checkSorted(kinds []kind, in [][]sym, out []int, st *orderStats) (string, s
 			}
 			if c == 0 {
 				st.ties++
+				// "The sort is stable: records that compare equal will sort in the
+				// order they were encountered": two groups whose keys compare equal
+				// (but differ in text) must come out in order of first appearance.
+				// (Records of one text stay contiguous, so the usage cannot mean
+				// more than this for 1 / 1.0 / 1.)
 				if out[runs[i].first] > out[runs[j].first] {
 					st.tieReordered++
+					return "tiestable", fmt.Sprintf("record #%d %s and record #%d %s compare equal under %v but are output against their input order (usage: \"the sort is stable\"); output order %v",
+						out[runs[j].first], tupleText(runs[j].tuple), out[runs[i].first], tupleText(runs[i].tuple), kinds, out)
 				}
 			} else {
 				st.strict++
